@@ -359,7 +359,10 @@ def r4_from_dataframe(R) -> None:
             if isinstance(dc_, ast.DictComp):
                 dcs.append(dc_)
     ok = len(dcs) == 1 and text(dcs[0].generators[0].iter) == 'data.items()' and text(dcs[0].value).endswith('.values') and text(dcs[0].key) == text(dcs[0].generators[0].target.elts[0])
-    R.check(ok, q, 'columns', "each column's values are passed under the column name", 'columns are not passed as {name: column.values}', where=f.where(rets[0]))
+    shown = f.etext(rets[0].id, dcs[0].generators[0].iter)[:60] if len(dcs) == 1 else '?'
+    R.check(ok, q, 'columns', "each column's values are passed under the column name",
+            f'columns are not passed as {{name: column.values for name, column in data.items()}}: the columns come from `{shown}` (every column of the frame must arrive, '
+            f'as it is)', where=f.where(rets[0]))
     # the frame is used as given (no re-ordering / re-binding before the span and the values are taken)
     rebinds = f.assigns_to('data')
     R.check(not rebinds, q, 'frame-as-given:' + (text(rebinds[0].ast)[:50] if rebinds else ''), 'span and values are taken from the frame as given',
